@@ -22,6 +22,7 @@ ASSUMPTIONS = [
 ]
 PI = math.pi
 RADII = [0.0, 1e-3, 0.5, 1.0, 2.5, 1e3]
+RADII_THOROUGH = RADII + [1e-9, 1e-6, 30.0, 1e6]  # absolute scales far from 1 (absolute tolerances must not matter)
 WIDTHS = [None, 0.0, 0.3, 1.2]
 POS1 = [-2.0, 0.0, 0.7, 3.5]
 
@@ -73,7 +74,8 @@ def blocks(tier, seed):
     out = []
     for d in (1, 2, 3):
         for cname in ("SphericalDroplet", "DiffuseDroplet"):
-            out.append({"kind": "pair", "dim": d, "cls": cname, "phase": seed % 4})
+            for ri in range(len(RADII_THOROUGH if tier == "thorough" else RADII)):
+                out.append({"kind": "pair", "dim": d, "cls": cname, "phase": seed % 4, "ri": ri, "tier": tier})
     for d in (1, 2, 3):
         n = 4 if (tier == "thorough" or d == 1) else 3
         for cname in ("SphericalDroplet", "DiffuseDroplet"):
@@ -86,8 +88,11 @@ def cases(block):
     P = positions(d, block["phase"])
     if block["kind"] == "pair":
         widths = WIDTHS if cname == "DiffuseDroplet" else [None]
-        operands = [(p, r, w) for p in P for r in RADII for w in widths]
+        radii = RADII_THOROUGH if block.get("tier") == "thorough" else RADII
+        operands = [(p, r, w) for p in P for r in radii for w in widths]
         for a in operands:
+            if a[1] != radii[block["ri"]]:
+                continue
             for b in operands:
                 if a[1] + b[1] > 0:
                     yield {"kind": "pair", "dim": d, "cls": cname, "a": a, "b": b}
